@@ -65,9 +65,20 @@ def paginate {V : Type} (entries : List (String × V)) (r : PageReq) : Except St
             nextKey := (it.drop (r.offset + limit)).head?.map (·.1),
             total := if countTotal then it.length else 0 }
 
-/-- the sub-store under a raw-key prefix, prefix stripped (`prefix.NewStore`) -/
+/-- `bytes.HasPrefix` -/
+def hasPrefix (p k : String) : Bool := p.toList.isPrefixOf k.toList
+
+/-- the content of `prefix.NewStore(store, p)`: the entries whose raw key starts with `p` (with
+their full keys: the prefix store strips `p` only when it hands keys out) -/
 def underPrefix {V : Type} (entries : List (String × V)) (p : String) : List (String × V) :=
-  entries.filterMap (fun e => if p.isPrefixOf e.1 then some ((e.1.drop p.length).toString, e.2) else none)
+  entries.filter (fun e => hasPrefix p e.1)
+
+/-- `query.Paginate` on a prefix store: keys on the wire (`PageRequest.Key`, `NextKey`) are relative
+to the prefix, the iteration itself compares full keys -/
+def paginateUnder {V : Type} (entries : List (String × V)) (p : String) (r : PageReq) : Except String (PageRes V) :=
+  match paginate (underPrefix entries p) { r with key := r.key.map (fun k => p ++ k) } with
+  | .error e => .error e
+  | .ok res => .ok { res with nextKey := res.nextKey.map (fun k => (k.drop p.length).toString) }
 
 /-- ascending raw-key order -/
 def sortByKey {V : Type} (entries : List (String × V)) : List (String × V) :=
